@@ -6,6 +6,9 @@ C11.b  [flow] at return of every processing entry point previousTransition equal
        field; its destination is the active state when non-empty, and nothing happened when it is empty.
 C11.c  [flow+effect] replayTransition(d) / replayEnter(d): exactly the exit/enter (or reenter) of C01 with the entered
        state == d, history := d, no guards; replayTransition(invalid) returns false with no dispatch and no registry write.
+C11.e  [cmp] the surviving request is never replaced silently: a request that differs from the accepted transition (origin,
+       destination, payload) is not dropped without a guard round, so history carries the origin and payload of the last
+       request no guard cancelled (shares C02.f).
 C11.d  copies keep the history (copy/move constructors copy previousTransition; shares C17.b).
 """
 from lint import facts, ir, effects, records, cfg as cfgmod
@@ -71,12 +74,16 @@ def run(run):
             history_writers(run, F, E)
             replay_shape(run, F, E)
             records.copy_ctor_coverage(run, 'C11.d', F)
+            from rules import c02
+            c02.drop_condition(run, F)
+            run.relabel('C02.f', 'C11.e')
             facts.drop(F)
             cfgmod.clear_cache()
     run.floor('C11.a', 20)
     run.floor('C11.b', 50)
     run.floor('C11.c', 30)
     run.floor('C11.d', 10)
+    run.floor('C11.e', 8)
     run.explanation = (
         'Effect-set rule on the writers of previousTransition, must-equality dataflow showing that at return the history equals '
         'the accepted transition (whose destination the same analysis shows to be the state finally entered, C02.d), a typestate '
